@@ -14,7 +14,8 @@ LEVEL_NOTE = ("Lean theorems over the model of _LSHNearest (hyper-planes = recor
               "metamorphic predict_expectations(c*X) = predict_expectations(X).")
 
 PROFILE = {"name": "C11", "lp": G.CF_KINDS + G.LIN_KINDS, "np": ["lsh"],
-           "weights": {"fit": 1, "pfit": 3, "query": 5, "add": 1, "rem": 0.5, "warm": 0}}
+           "weights": {"fit": 1, "pfit": 3, "query": 5, "add": 1, "rem": 0.5, "warm": 0, "bad": 0.7},
+           "bad_classes": ["width"]}    # a rejected partial_fit (wrong number of columns) must not disturb the positions
 
 
 def run(ctx):
